@@ -1,7 +1,7 @@
 #![allow(unused)]
 fn mk<T>() -> T { unimplemented!() }
 
-pub fn p1166() {
+pub fn p1172() {
     let a: re::math::mat::Matrix<[[f32; 4]; 4], re::math::mat::RealToReal<2, re::render::Model, re::render::World>> = mk();
     let _ = a.transpose();
 }
